@@ -1,4 +1,5 @@
 //! Model-checking harness for chia_rs: engines, reference models, evidence.
+pub mod bfs;
 pub mod cli;
 pub mod engine;
 pub mod report;
